@@ -1096,6 +1096,9 @@ def xr_zeros(
     :return: :py:class:`xarray.DataArray` filled with zeros (numpy or dask)
     """
     if time is not None:
+        if isinstance(time, (str, datetime)):
+            # single time stamp, same as in wrap_xr: one step along the time axis
+            time = [time]
         _shape: Tuple[int, ...] = (len(time), *geobox.shape.yx)
     else:
         _shape = geobox.shape.yx
